@@ -2,6 +2,6 @@ SPECIFICATION Spec
 CONSTANTS
   Callers = {"r", "w", "x"}
   MaxEnters = 2
-  Deviations = {}
+  Deviations = {"uncounted_joiner"}
 INVARIANTS CallersModeRespected NonblockNeverWaits ModeRestoredWhenQuiet NeverAsksBlocking NoAbort ForcedWhileInProgress
 CHECK_DEADLOCK FALSE
